@@ -92,9 +92,9 @@ func init() {
 		Stubs:  []string{"math/rand source of the embedded bucket skip list (tower-height words from the run seed)", "time.Now (seed of that PRNG)"},
 		Rule:   "cases = (bucket keys, tower-word distribution, operations Add/Remove/Contains/Len, arithmetic runs of 300..5000 values added/removed ascending/descending/shuffled so buckets cross 4096 both ways, enumerations by Iter/Range/All complete and early-stopped) drawn from the run seed; non-trivial = the bucket list drew >=2 tower words and (a non-production tower distribution was in force or a conversion/emptying/re-population probe fired); distinct = distinct hash of (params, operations, env seed) over such runs",
 		Assume: seqAssume}
-	props["C20"] = &propCfg{ID: "C20", Engine: "C", Pkgs: "randz", Imports: "time=stime,crypto/rand=scrand,math/rand=smrand,sync=csync", Level: "exploration", QuickS: 20, ThorS: 480,
+	props["C20"] = &propCfg{ID: "C20", Engine: "C", Pkgs: "randz", Imports: "time=stime,crypto/rand=scrand,math/rand=smrand,sync=csync,github.com/welllog/golib/hashz=shashz", Level: "exploration", QuickS: 20, ThorS: 480,
 		Real:   []string{"randz/id.go, randz/str.go, randz/count.go (every statement)", "math/big and crypto/rand.Int arithmetic on top of the simulated entropy reader"},
-		Stubs:  []string{"time.Since/time.Now (clock trace decided by the run seed)", "crypto/rand.Reader (seeded/extreme bytes, short reads, errors so the math/rand fallback runs)", "math/rand package-level draws and sources", "the rand.Source handed to NewStrGenerator (seeded PRNG)"},
+		Stubs:  []string{"time.Since/time.Now (clock trace decided by the run seed)", "crypto/rand.Reader (seeded/extreme bytes, short reads, errors so the math/rand fallback runs)", "math/rand package-level draws and sources", "the rand.Source handed to NewStrGenerator (seeded PRNG)", "hashz.BKDRHash as used by CountGenerator (per-identifier value drawn by the simulator, extremes of [0, 2^31-1] over-represented)"},
 		Rule:   "cases = one of 4 scenarios (IdGenerator under a clock trace and an entropy plan; StrGenerator over a random character set of 1..40 runes of 1-4 bytes; ID numerals and base-32 round trip on random and boundary ids; CountGenerator swept over elapsed times for a random positive rule set) drawn from the run seed, plus one finite table (every byte value at first/middle/last position of valid strings of length 1..13 given to ParseBase32) enumerated exhaustively once per check; non-trivial = an adversarial environment decision actually took place (entropy error/short read/extreme bytes, clock before the start / next to a millisecond boundary / around 2^41 ms, multi-byte or power-of-two character set or more than one source word, boundary ids, equal periods or interval > period); distinct = distinct hash of (params, operations, env seed)",
 		Assume: append([]string{"the ParseBase32 invalid-byte clause is decided by plain exhaustive enumeration of a finite table, not by simulation (DESIGN.md C20)"}, seqAssume...)}
 	props["C18"] = &propCfg{ID: "C18", Engine: "C", Pkgs: "algz", Imports: "sync=csync", MapRange: true, Level: "exploration", QuickS: 20, ThorS: 480,
